@@ -50,6 +50,14 @@ def state_index(r, full, s):
     return len([x for x in full if x.idx < s.idx])
 
 
+def near(a, b, *ref):
+    """Times equal to within round-off (a snapshot may be re-stamped with the requested time)."""
+    a, b = float(a), float(b)
+    if a != a or b != b:
+        return a != a and b != b
+    return abs(a - b) <= tol(a, b, *ref)
+
+
 class V:
     """One violation."""
 
@@ -263,7 +271,7 @@ def check_c07(r, ex, stats):
     if N >= 1 and len(res) >= 1:
         last = res[-1]
         is_final = (last[0] == full[-1].dig_out and last[1] == full[-1].t_out)
-        produced = [s for s in side if s.dig_out == last[0] and s.t_out == last[1]]
+        produced = [s for s in side if s.dig_out == last[0] and near(s.t_out, last[1], t0)]
         if is_final and not produced and len(res) == 1:
             fallback = last
             if not any(abs(last[1] - sv) <= tol(sv, last[1], t0) for sv in r.tsave):
@@ -314,7 +322,7 @@ def check_c07(r, ex, stats):
     for sn, sv in zip(snaps, matched):
         stats["T4"] += 1
         cand = [s for s in tr.steps if s.status == "ok" and s.kind == "side"
-                and s.dig_out == sn[0] and s.t_out == sn[1]]
+                and s.dig_out == sn[0] and near(s.t_out, sn[1], t0)]
         if sv == t0 and not cand:
             # no step: must be the initial state itself
             if sn[0] != r.f_before[0]:
@@ -469,7 +477,7 @@ def check_c08(r, ex, stats):
     side = tr.side_steps()
     t0 = r.f_before[1]
     for k, sn in enumerate(res):
-        cand = [s for s in side if s.dig_out == sn[0] and feq(s.t_out, sn[1])]
+        cand = [s for s in side if s.dig_out == sn[0] and near(s.t_out, sn[1], t0)]
         if cand:
             s = cand[0]
             kk = state_index(r, full, s)
